@@ -175,14 +175,20 @@ fn check_quarantined(b: &Block) -> Option<String> {
     None
 }
 
-/// Checks every live and quarantined block; returns findings as (class, detail).
-pub fn audit(s: &Sim) -> Vec<(String, String)> {
+/// Checks the red zones of every live block (cheap; after every operation).
+pub fn audit_live(s: &Sim) -> Vec<(String, String)> {
     let mut out = Vec::new();
     for b in s.blocks.values() {
         if let Some(d) = check_canaries(b) {
             out.push(("alloc/canary".to_string(), d));
         }
     }
+    out
+}
+
+/// Checks every live and quarantined block (end of run); returns findings as (class, detail).
+pub fn audit(s: &Sim) -> Vec<(String, String)> {
+    let mut out = audit_live(s);
     for b in &s.quarantine {
         if let Some(d) = check_quarantined(b) {
             out.push(("alloc/use-after-free".to_string(), d));
